@@ -4087,6 +4087,17 @@ func SendXMLResponse(ctx *fiber.Ctx, resp any, err error, l *MetaOpts) error {
 		})
 	}
 
+	msglen := len(xmlhdr) + len(b)
+	if !ok && msglen > maxXMLBodyLen {
+		// answered with an error: no event for this request
+		debuglogger.Logf("XML encoded body len %v exceeds max len %v",
+			msglen, maxXMLBodyLen)
+		ctx.Status(http.StatusInternalServerError)
+
+		return ctx.Send(s3err.GetAPIErrorResponse(
+			s3err.GetAPIError(s3err.ErrInternalError), "", "", ""))
+	}
+
 	if l.EvSender != nil {
 		l.EvSender.SendEvent(ctx, s3event.EventMeta{
 			BucketOwner: l.BucketOwner,
@@ -4105,15 +4116,6 @@ func SendXMLResponse(ctx *fiber.Ctx, resp any, err error, l *MetaOpts) error {
 		return ctx.Send(b)
 	}
 
-	msglen := len(xmlhdr) + len(b)
-	if msglen > maxXMLBodyLen {
-		debuglogger.Logf("XML encoded body len %v exceeds max len %v",
-			msglen, maxXMLBodyLen)
-		ctx.Status(http.StatusInternalServerError)
-
-		return ctx.Send(s3err.GetAPIErrorResponse(
-			s3err.GetAPIError(s3err.ErrInternalError), "", "", ""))
-	}
 	res := make([]byte, 0, msglen)
 	res = append(res, xmlhdr...)
 	res = append(res, b...)
